@@ -426,3 +426,27 @@ SPECS["C03"] = {
     "assumptions": ["strings of one byte over {a,b,.}", "lists of two numbers"],
     "outside": ["operator triples", "regexp semantics beyond the alphabet", "string interpolation inside operands (C14)", "assignment (loosest) is covered by the templates of C04/C05"],
 }
+
+SPECS["C20"] = {
+    "explanation": "The real marker scan of RunPackedBinary is executed on an in-memory executable: n symbolic filler bytes over {x,#,newline}, the real marker, "
+                   "a 4-byte archive stub; os/file calls and runInterpreter are replaced by harness functions (the latter records the archive size it is handed). The "
+                   "scanner's block size b1 is a package variable and is shrunk from 4096 to 8 (b2 keeps its value) so that two full periods of the buffer geometry fit "
+                   "into the explored lengths. Counterexamples are replayed with a real temp file, a real zip archive and the real interpreter.",
+    "level_text": "bounded: all binary lengths 0..80 (> 2*(b1+b2)=72) at b1=8 (thorough also b1=16, 0..90) x all fillers over the 3-byte alphabet: the archive is found at the byte after the marker",
+    "level_note": "trusts go/ssa, gosym, z3; function replacement for os/file/zip; the real 4096 geometry is covered only through the parametricity of the scan in b1",
+    "harnesses": [
+        {"name": "H1-scan-%d-%d" % (lo, hi), "pkg": "cli/tool", "files": ["tool/c20.go"], "fn": "VerifC20Scan",
+         "what": "binary lengths %d..%d, b1=8" % (lo, hi), "reach": ["scanned"],
+         "quick": {"params": {"LO": lo, "HI": hi, "B1": 8}, "unwind": 200, "wall_s": 900} if q else None,
+         "thorough": {"params": {"LO": lo, "HI": hi, "B1": 8}, "unwind": 200, "wall_s": 3000}}
+        for (lo, hi, q) in ((0, 20, True), (21, 40, True), (41, 60, True), (61, 80, True))
+    ] + [
+        {"name": "H1-scan-b16-%d-%d" % (lo, hi), "pkg": "cli/tool", "files": ["tool/c20.go"], "fn": "VerifC20Scan",
+         "what": "binary lengths %d..%d, b1=16" % (lo, hi), "reach": ["scanned"],
+         "quick": None,
+         "thorough": {"params": {"LO": lo, "HI": hi, "B1": 16}, "unwind": 300, "wall_s": 3000}}
+        for (lo, hi) in ((0, 45), (46, 90))
+    ],
+    "assumptions": ["b1 = 8 instead of 4096", "filler alphabet {x,#,newline}", "file system and zip reader replaced in the symbolic run"],
+    "outside": ["archive content recovery (archive/zip, flate)", "directory walking of the pack tool", "running the entry file"],
+}
